@@ -63,6 +63,9 @@
                                   list_headers h cookies of Resp/Model.v
    (enc is total here: the UnicodeEncodeError of a header outside Latin-1 is outside the model's domain, is_latin1.)
 
+   Response.__call__ of baize/wsgi/responses.py: G.py_wsgi_Response_call, wsgi_response_call_translated (described at its
+   segment, the last one).
+
    The proofs do not follow the shape of the generated term: both sides are evaluated on every case of the option and of
    the budget, and the two dicts are compared key by key, so a rewrite of the Python that keeps the behaviour (another
    order of the keys, the headers put into the display in two branches, ...) keeps the proof. *)
@@ -218,3 +221,27 @@ Qed.
 
 Print Assumptions small_call_translated.
 (* METHOD-END py_SmallResponse_call *)
+
+(* METHOD-BEGIN py_wsgi_Response_call *)
+(* Response.__call__ of baize/wsgi/responses.py (a plain function: recipe RPlain on the WSGI side), translated into a pure
+   function that gives (the calls of start_response in order, each (status line, header list); the items of the iterable
+   returned).  StatusStringMapping is an argument [ss] (the theorem quantifies over it), MutableHeaders.__setitem__ is the
+   model's hset', list_headers(as_bytes=False) the translated G.py_list_headers.
+     wsgi_response_call_translated   start_response is called exactly once, with ss (status) and the model's header list,
+                                     and the iterable is one empty chunk: read as events (a call = WStart of the status,
+                                     an item = WYield) this is  wsgi_full (RPlain b)  of Resp/Model.v *)
+Definition wsgi_events (code : nat) (x : list (list N * list header) * list bytes) : list wevent :=
+  map (fun c => WStart code (snd c)) (fst x) ++ map WYield (snd x).
+
+Theorem wsgi_response_call_translated : forall (b : base) (ss : nat -> list N),
+  let x := G.py_wsgi_Response_call hset' ss (fun s => s) (fun c => c) (fun c => c) (b_status b) (hinit (b_headers b)) (b_cookies b) in
+  map fst (fst x) = [ss (b_status b)] /\
+  wsgi_events (b_status b) x = fst (wsgi_full (RPlain b)) /\
+  snd (wsgi_full (RPlain b)) = Returned.
+Proof.
+  intros b ss. unfold G.py_wsgi_Response_call. cbv zeta. rewrite ?list_headers_model.
+  repeat split; vm_compute; reflexivity.
+Qed.
+
+Print Assumptions wsgi_response_call_translated.
+(* METHOD-END py_wsgi_Response_call *)
